@@ -131,7 +131,8 @@ type c20S struct {
 }
 
 func setLaws[T comparable](c *core.Case, name string, l1, l2 []T) bool {
-	c1, c2 := append([]T{}, l1...), append([]T{}, l2...)
+	// the operands may be windows of longer arrays (spare capacity): compare the whole backing arrays afterwards
+	c1, c2 := append([]T{}, l1[:cap(l1)]...), append([]T{}, l2[:cap(l2)]...)
 	in := func(l []T) map[T]bool {
 		m := map[T]bool{}
 		for _, x := range l {
@@ -211,15 +212,15 @@ func setLaws[T comparable](c *core.Case, name string, l1, l2 []T) bool {
 		}
 	}
 	c.Calls(4 + len(l2))
-	for i := range c1 {
-		if c1[i] != l1[i] {
-			c.Fail("input-modified", nil, "%s: a set helper modified its first argument", name)
+	for i, x := range l1[:cap(l1)] {
+		if c1[i] != x {
+			c.Fail("input-modified", nil, "%s: a set helper modified its first argument (or the array behind it: position %d of %d, length %d)", name, i, cap(l1), len(l1))
 			return false
 		}
 	}
-	for i := range c2 {
-		if c2[i] != l2[i] {
-			c.Fail("input-modified", nil, "%s: a set helper modified its second argument", name)
+	for i, x := range l2[:cap(l2)] {
+		if c2[i] != x {
+			c.Fail("input-modified", nil, "%s: a set helper modified its second argument (or the array behind it: position %d of %d, length %d)", name, i, cap(l2), len(l2))
 			return false
 		}
 	}
@@ -296,6 +297,13 @@ func runC20(c *core.Case) {
 		c.Desc = func() any { return map[string]any{"l1": li1, "l2": li2} }
 		if n1+n2 > 0 {
 			c.NonTrivial()
+		}
+		if r.P(0.3) && n1 > 1 && n2 > 1 {
+			// operands that are windows of longer arrays: the elements behind the window are the caller's too
+			k1, k2 := 1+r.Intn(n1-1), 1+r.Intn(n2-1)
+			li1, l641, ls1, lf1, lt1 = li1[:k1], l641[:k1], ls1[:k1], lf1[:k1], lt1[:k1]
+			li2, l642, ls2, lf2, lt2 = li2[:k2], l642[:k2], ls2[:k2], lf2[:k2], lt2[:k2]
+			c.Tag("operands-with-spare-capacity")
 		}
 		if r.P(0.0006) || (c.Tier == "thorough" && r.P(0.0006)) { // very long operands
 			n := veryLongLen(r)
